@@ -39,6 +39,7 @@ func isNilContainer(c pub.Container) bool {
 func scenC10(r *Run) {
 	f := newFedi(r)
 	t := r.W
+	f.QueryURLs = t.Chance(1, 4)
 	base := simEpoch.Add(-48 * time.Hour)
 	l := f.DrawLayout("h1.example", func(remote bool) CItem {
 		return f.noteItem("h1.example", base.Add(time.Duration(f.seq)*time.Minute), remote)
@@ -108,7 +109,7 @@ func scenC10(r *Run) {
 		}
 		pages := 0
 		for _, cr := range r.Net.Conns[before:] {
-			if strings.HasPrefix(cr.Target, "/c/") {
+			if strings.HasPrefix(cr.Target, "/c/") || strings.HasPrefix(cr.Target, "/c?") {
 				pages++
 			}
 		}
